@@ -12,7 +12,7 @@ room definition under construction (all answer `q`):
   ruser | ruadmin room=<n> g=<n> id=<n> k=<k> en=<0|1> t=<int> by=<k>
   install room=<n>                      -> ok | err:<class> | panic
 general candidates (C07; all answer `q`): a pool of signed rows and references, then lists
-  srow id= ent= c= m= by= body=user|right|name|none [k= en=] [e= ms= ma=] [v=] [sig=]
+  srow [p=<pool key, default id>] id= ent= c= m= by= body=user|right|name|none [k= en=] [e= ms= ma=] [v=] [sig=]
   sedge n= src= se= l= dst= c= by= [sig=]
   cand room=<row id> admins=<ids> aedges=<edge numbers> auths=<ids> authedges=<edge numbers>
   cauth room= id=<row id> rights= redges= users= uedges= uadmins= uaedges=
@@ -36,7 +36,7 @@ structure St where
   defs : List RoomNode.RoomNode          -- room definitions under construction
   sysIds : List Nat                      -- ids of rows written by `install` (their signature rank is unknown)
   batch : Batch
-  rowPool : List RoomNode.SRow           -- signed rows a candidate can be assembled from
+  rowPool : List (Nat × RoomNode.SRow)   -- signed rows a candidate can be assembled from, by pool key (`p=`, default the row id)
   edgePool : List (Nat × RoomNode.PEdge)
   dI : Defects                           -- switches in force for this case (`case id=… off=a,b` turns some off)
   dR : RoomNode.Defects
@@ -193,8 +193,8 @@ def natListOr (toks : List String) (k : String) : Option (List Nat) :=
   | some "" => some []
   | some s => (s.splitOn ",").mapM String.toNat?
 
-def pickRows (pool : List RoomNode.SRow) (ids : List Nat) : Option (List RoomNode.SRow) :=
-  ids.mapM fun i => pool.find? (·.id = i)
+def pickRows (pool : List (Nat × RoomNode.SRow)) (ids : List Nat) : Option (List RoomNode.SRow) :=
+  ids.mapM fun i => (pool.find? (·.1 = i)).map (·.2)
 
 def pickEdges (pool : List (Nat × RoomNode.PEdge)) (ns : List Nat) : Option (List RoomNode.PEdge) :=
   ns.mapM fun i => (pool.find? (·.1 = i)).map (·.2)
@@ -249,7 +249,8 @@ def stepLine (st : St) (line : String) : St × String :=
         { placingEdgeUnchecked := sw "placingEdge" r.placingEdgeUnchecked,
           roomRowUnchecked := sw "roomRow" r.roomRowUnchecked,
           newGroupUserAdminUnchecked := sw "newGroupUserAdmin" r.newGroupUserAdminUnchecked,
-          newestFirstRead := sw "newestFirstRead" r.newestFirstRead }
+          newestFirstRead := sw "newestFirstRead" r.newestFirstRead,
+          duplicateIdsUnchecked := sw "duplicateIds" r.duplicateIdsUnchecked }
       ({ St.init with dI, dR }, s!"case {i}")
     | none => (st, "bad-op")
   | "room" :: rest =>
@@ -315,7 +316,8 @@ def stepLine (st : St) (line : String) : St × String :=
       if b < 8 && (ent ≤ 3 && 1 ≤ ent || 100 ≤ ent && ent ≤ 103) then
         let sig := (bool? rest "sig").getD true
         let row : RoomNode.SRow := { id, ent, room := none, cdate := c, mdate := m, author := b, body, sigOk := sig }
-        ({ st with rowPool := st.rowPool.filter (·.id ≠ id) ++ [row] }, "q")
+        let pk := (nat? rest "p").getD id
+        ({ st with rowPool := st.rowPool.filter (·.1 ≠ pk) ++ [(pk, row)] }, "q")
       else (st, "bad-op")
     | _, _, _, _, _, _ => (st, "bad-op")
   | "sedge" :: rest =>
@@ -330,7 +332,7 @@ def stepLine (st : St) (line : String) : St × String :=
   | "cand" :: rest =>
     match nat? rest "room", natListOr rest "admins", natListOr rest "aedges", natListOr rest "auths", natListOr rest "authedges" with
     | some room, some admins, some aedges, some auths, some authedges =>
-      match st.rowPool.find? (·.id = room), pickRows st.rowPool admins, pickEdges st.edgePool aedges,
+      match (st.rowPool.find? (·.1 = room)).map (·.2), pickRows st.rowPool admins, pickEdges st.edgePool aedges,
             pickRows st.rowPool auths, pickEdges st.edgePool authedges with
       | some node, some an, some ae, some gn, some ge =>
         let d : RoomNode.RoomNode :=
